@@ -163,6 +163,17 @@ var verifUnreadableTexts = []string{
 	"{\"@id\":\"http://a.ml/x\",\"http://a.ml/p\":\"caf\xe9\"}", "{\"caf\xe9\": 1}", "\"\xff\"", "[\"\xc3\"]", "{}\n\xa0", "{\"a\":\"\xed\xa0\x80\"}",
 }
 
+func init() {
+	// text that starts far behind the document: behind more blanks than a decoder reads ahead (512,
+	// 1536, 3584 ... bytes), directly behind a document that ends on such a boundary, behind a
+	// megabyte of blank lines
+	doc := `{"@id": "http://x/a", "@type": "http://a.ml/vocabularies/apiContract#EndPoint"}`
+	pad := func(n int) string { return strings.Repeat(" ", n) }
+	verifUnreadableTexts = append(verifUnreadableTexts,
+		doc+pad(600)+"#%RAML 1.0\ntitle: API\n", doc+strings.Repeat("\n", 5000)+"{\"@graph\": [{\"@id\": ", doc+pad(512-len(doc))+"}", doc+pad(1536-len(doc))+"]",
+		doc+pad(1<<20)+"garbage", "{}"+pad(510)+"x", "[]"+pad(4000)+"[]")
+}
+
 // VerifC04Texts: every text of the family, through every entry point: an error and no report.
 func VerifC04Texts() {
 	ep := v.Choice("entry", 4)
@@ -492,6 +503,55 @@ func VerifC09IndexHistoryNative() {
 			k = v.ReplayInt(name)
 		}
 		verifC09CheckUnit(k)
+	}
+}
+
+// VerifC09LongHistory: one compiled profile over many documents - seventy distinct documents, then
+// the same seventy again: every document gets the report it got the first time (a history longer than
+// any small table of recent documents; every stage succeeds, the stubbed engine quotes the document).
+func VerifC09LongHistory() {
+	v.Faults(false)
+	compiled, cerr := ProcessProfile(verifProfile, false, nil)
+	v.Assume(cerr == nil)
+	const n = 70
+	var first [n]string
+	for pass := 0; pass < 2; pass++ {
+		for k := 0; k < n; k++ {
+			r, err := ValidateCompiledWithConfiguration(compiled, fmt.Sprintf("<<doc %d>>", k), false, nil, c.TestValidationConfiguration{}, c.DefaultReportConfiguration())
+			if pass == 0 {
+				first[k] = r
+				v.Assert("C09.step-independent.error", err == nil && r != "")
+				for j := 0; j < k; j++ {
+					if first[j] == r {
+						v.Assert("C09.step-independent.report", false) // two different documents, one report
+					}
+				}
+			} else {
+				v.Assert("C09.step-independent.report", err == nil && r == first[k])
+			}
+		}
+	}
+	v.Reach("validated-140")
+}
+
+func VerifC09LongHistoryNative() {
+	compiled, cerr := ProcessProfile(verifProfile, false, nil)
+	if cerr != nil {
+		panic(cerr)
+	}
+	const n = 70
+	var first [n]string
+	for pass := 0; pass < 2; pass++ {
+		for k := 0; k < n; k++ {
+			doc := fmt.Sprintf(`{"@id": "http://x/n%d", "@type": "http://a.ml/vocabularies/apiContract#EndPoint"}`, k)
+			r, err := ValidateCompiledWithConfiguration(compiled, doc, false, nil, c.TestValidationConfiguration{}, c.DefaultReportConfiguration())
+			if pass == 0 {
+				first[k] = r
+				v.Assert("C09.step-independent.error", err == nil && r != "")
+			} else {
+				v.Assert("C09.step-independent.report", err == nil && r == first[k])
+			}
+		}
 	}
 }
 
